@@ -231,7 +231,9 @@ func (e *c11Env) doFetch(n *vfNode, cl int, k c11Key, phase string) c11Op {
 // key that began before the fetch returned, and must not be *definitely
 // overwritten*, i.e. there must be no acknowledged set that began after the
 // returned value's set had returned and that itself returned before the fetch
-// began (for -1: no acknowledged set returned before the fetch began).
+// began (for -1: no acknowledged set returned before the fetch began), and no
+// earlier fetch that began after the returned value's set had returned,
+// returned another value and returned before this fetch began.
 // Returns "" when the fetch is admissible.
 func c11Judge(keyOps []c11Op, valKey map[int64]string, f c11Op) (kind, what string) {
 	if !f.OK || f.Kind != "fetch" {
@@ -268,15 +270,38 @@ func c11Judge(keyOps []c11Op, valKey map[int64]string, f c11Op) (kind, what stri
 			over = o
 		}
 	}
-	if over == nil {
-		return "", ""
-	}
 	got := fmt.Sprint(f.Val)
 	if f.Val == -1 {
 		got = "-1 (no cursor)"
 	}
-	what = fmt.Sprintf("fetch of %s [%s, client %d, seq %d] returned %s although SetCursor(%d) [seq %d, phase %s] was called after that value was stored and was acknowledged %.3f ms before the fetch began",
-		f.Key, f.Phase, f.Client, f.Seq, got, over.Val, over.Seq, over.Phase, float64(f.Call-over.Ret)/1e6)
+	if over != nil {
+		what = fmt.Sprintf("fetch of %s [%s, client %d, seq %d] returned %s although SetCursor(%d) [seq %d, phase %s] was called after that value was stored and was acknowledged %.3f ms before the fetch began",
+			f.Key, f.Phase, f.Client, f.Seq, got, over.Val, over.Seq, over.Phase, float64(f.Call-over.Ret)/1e6)
+	} else {
+		// Overwritten as witnessed by another fetch: the returned value was
+		// completely stored before an earlier fetch began, that fetch returned
+		// a different value (so the register had moved on: values are unique)
+		// and it returned before this fetch began.
+		var seen *c11Op
+		for i := range keyOps {
+			o := &keyOps[i]
+			if o.Kind == "fetch" && o.OK && o.Val != f.Val && o.Ret < f.Call && srcRet < o.Call && (seen == nil || o.Ret > seen.Ret) {
+				if c11RealTimeStale(keyOps, *o) {
+					continue // that fetch is the wrong one of the two
+				}
+				for j := range keyOps {
+					if s := &keyOps[j]; s.Kind == "set" && s.Val == o.Val {
+						seen, over = o, s
+					}
+				}
+			}
+		}
+		if over == nil {
+			return "", ""
+		}
+		what = fmt.Sprintf("fetch of %s [%s, client %d, seq %d] returned %s although that value had been stored completely before an earlier fetch [seq %d, client %d] began, which returned the different value %d (SetCursor seq %d) and had returned %.3f ms before this fetch began",
+			f.Key, f.Phase, f.Client, f.Seq, got, seen.Seq, seen.Client, seen.Val, over.Seq, float64(f.Call-seen.Ret)/1e6)
+	}
 	// History shape "cache refilled by a fetch that raced the set": an earlier
 	// fetch of the key overlapped the overwriting set, returned the old value
 	// (legal for that fetch) and finished after the set was called; the stale
@@ -288,6 +313,30 @@ func c11Judge(keyOps []c11Op, valKey map[int64]string, f c11Op) (kind, what stri
 		}
 	}
 	return "stale", what
+}
+
+// c11RealTimeStale is the real-time half of c11Judge: the value f returned was
+// overwritten by an acknowledged set lying wholly between the return of the
+// value's own set and the call of f.
+func c11RealTimeStale(keyOps []c11Op, f c11Op) bool {
+	srcRet := int64(-1)
+	if f.Val != -1 {
+		found := false
+		for i := range keyOps {
+			if o := &keyOps[i]; o.Kind == "set" && o.Val == f.Val {
+				srcRet, found = o.Ret, true
+			}
+		}
+		if !found {
+			return true // not a value of this key at all
+		}
+	}
+	for i := range keyOps {
+		if o := &keyOps[i]; o.Kind == "set" && o.OK && o.Val != f.Val && o.Call > srcRet && o.Ret < f.Call {
+			return true
+		}
+	}
+	return false
 }
 
 func c11Index(ops []c11Op) (byKey map[string][]c11Op, valKey map[int64]string) {
@@ -440,7 +489,7 @@ func (e *c11Env) violation(kind, phase, what string, key string, seq int) {
 			node, desc = e.hwInSparseSegment(key)
 		}
 		if node != "" {
-			fp = "C11:stale-after-compaction"
+			fp = "C11:stale-after-compaction:hw-in-sparse-segment"
 			what += fmt.Sprintf("; on node %s the cursors partition's HW lies in a compacted segment (%s), so the reverse scan that looks for the cursor starts at index slot HW-BaseOffset, which is not the HW's entry in a sparse segment", node, desc)
 		}
 	}
